@@ -34,9 +34,10 @@ def isoYearStart (Y : Int) : Int :=
   let jan4 := dayNumber Y 1 4
   jan4 - (jan4 + 3) % 7
 
-/-- Greatest unit boundary not after day `n` (as a day number; may lie before the supported range). -/
-def truncDay (u : TUnit) (n : Int) : Int :=
-  let (y, m, d) := civil n
+/-- Greatest unit boundary not after the day `n` whose calendar date is `(y, m, d)` (as a day number; may lie
+    before the supported range). Written on the components so that theorems need no inverse of `dayNumber`. -/
+def truncOf (u : TUnit) (ymd : Int × Int × Int) (n : Int) : Int :=
+  let (y, m, d) := ymd
   match u with
   | .century => dayNumber ((y - 1) / 100 * 100 + 1) 1 1
   | .year => dayNumber y 1 1
@@ -51,21 +52,27 @@ def truncDay (u : TUnit) (n : Int) : Int :=
   | .sundayStartWeek => n - (n + 4) % 7
   | .day | .hour | .minute => n
 
+/-- Greatest unit boundary not after day `n`. -/
+def truncDay (u : TUnit) (n : Int) : Int := truncOf u (civil n) n
+
 def inRangeDay (b : Int) : Chk Int := if MIN_DAY ≤ b ∧ b ≤ MAX_DAY then .ok b else .error .DateOutOfRange
 
 /-- `trunc` on dates. -/
 def truncDate (u : TUnit) (n : Int) : Chk Int := inRangeDay (truncDay u n)
 
-/-- `trunc` on timestamps (µs): date-sized units clear the time of day. -/
-def truncTs (u : TUnit) (x : Int) : Chk Int :=
+/-- `trunc` on a timestamp `x` (µs) whose day `x / 86400e6` has the calendar date `ymd`:
+    date-sized units clear the time of day. -/
+def truncTsOf (u : TUnit) (ymd : Int × Int × Int) (x : Int) : Chk Int :=
   match u with
   | .hour => .ok (x - x % 3600000000)
   | .minute => .ok (x - x % 60000000)
-  | u => (inRangeDay (truncDay u (x / DAY_US))).map (· * DAY_US)
+  | u => (inRangeDay (truncOf u ymd (x / DAY_US))).map (· * DAY_US)
 
-/-- First day of the unit after the one containing `n` (century, year, quarter, month). -/
-def nextStart (u : TUnit) (n : Int) : Int :=
-  let (y, m, _) := civil n
+def truncTs (u : TUnit) (x : Int) : Chk Int := truncTsOf u (civil (x / DAY_US)) x
+
+/-- First day of the unit after the one containing the day `(y, m, d)` (century, year, quarter, month). -/
+def nextStartOf (u : TUnit) (ymd : Int × Int × Int) (n : Int) : Int :=
+  let (y, m, _) := ymd
   match u with
   | .century => dayNumber ((y - 1) / 100 * 100 + 101) 1 1
   | .year => dayNumber (y + 1) 1 1
@@ -73,35 +80,68 @@ def nextStart (u : TUnit) (n : Int) : Int :=
   | .month => if m = 12 then dayNumber (y + 1) 1 1 else dayNumber y (m + 1) 1
   | _ => n
 
-/-- Rounding of a day number by the documented midpoints. -/
-def roundDay (u : TUnit) (n : Int) : Int :=
-  let (y, m, d) := civil n
+/-- Rounding of the day `n` = `(y, m, d)` by the documented midpoints. -/
+def roundOf (u : TUnit) (ymd : Int × Int × Int) (n : Int) : Int :=
+  let (y, m, d) := ymd
   match u with
-  | .century => if (y - 1) % 100 + 1 ≥ 51 then nextStart .century n else truncDay .century n
-  | .year => if m ≥ 7 then nextStart .year n else truncDay .year n
+  | .century => if (y - 1) % 100 + 1 ≥ 51 then nextStartOf .century ymd n else truncOf .century ymd n
+  | .year => if m ≥ 7 then nextStartOf .year ymd n else truncOf .year ymd n
   | .quarter =>
     let mq := (m - 1) % 3          -- 0, 1, 2 = first, second, third month of the quarter
-    if mq = 2 ∨ (mq = 1 ∧ d ≥ 16) then nextStart .quarter n else truncDay .quarter n
-  | .month => if d ≥ 16 then nextStart .month n else truncDay .month n
-  | .isoYear => if m ≥ 7 then isoYearStart (y + 1) else truncDay .isoYear n
+    if mq = 2 ∨ (mq = 1 ∧ d ≥ 16) then nextStartOf .quarter ymd n else truncOf .quarter ymd n
+  | .month => if d ≥ 16 then nextStartOf .month ymd n else truncOf .month ymd n
+  | .isoYear => if m ≥ 7 then isoYearStart (y + 1) else truncOf .isoYear ymd n
   | .week | .isoWeek | .monthStartWeek | .sundayStartWeek =>
-    let b := truncDay u n
+    let b := truncOf u ymd n
     if n - b ≥ 4 then b + 7 else b       -- from the fifth day of a full week on
   | .day | .hour | .minute => n
 
+/-- Rounding of a day number by the documented midpoints. -/
+def roundDay (u : TUnit) (n : Int) : Int := roundOf u (civil n) n
+
 def roundDate (u : TUnit) (n : Int) : Chk Int := inRangeDay (roundDay u n)
 
-/-- Rounding of a timestamp (µs). Week units and the day look at the instant (half-day shift: from noon of the
-    fourth day / from 12:00); the other date-sized units decide on the date alone; hour and minute from :30. -/
-def roundTs (u : TUnit) (x : Int) : Chk Int :=
+def inRangeTs (b : Int) : Chk Int :=
+  if MIN_DAY * DAY_US ≤ b ∧ b ≤ (MAX_DAY + 1) * DAY_US - 1 then .ok b else .error .DateOutOfRange
+
+/-- The day whose calendar date decides the rounding of timestamp `x`: week units and the day unit look at the
+    instant shifted by half a day (from noon of the fourth day / from 12:00), the others at the date itself. -/
+def decidingDay (u : TUnit) (x : Int) : Int :=
+  match u with
+  | .week | .isoWeek | .monthStartWeek | .sundayStartWeek | .day => (x + 43200000000) / DAY_US
+  | _ => x / DAY_US
+
+/-- Rounding of a timestamp `x` (µs); `ymd` is the calendar date of `decidingDay u x`.
+    Hour and minute round up from minute 30 / second 30. -/
+def roundTsOf (u : TUnit) (ymd : Int × Int × Int) (x : Int) : Chk Int :=
   match u with
   | .hour => let b := x - x % 3600000000; inRangeTs (if x - b ≥ 1800000000 then b + 3600000000 else b)
   | .minute => let b := x - x % 60000000; inRangeTs (if x - b ≥ 30000000 then b + 60000000 else b)
-  | .day => (inRangeDay ((x + 43200000000) / DAY_US)).map (· * DAY_US)
-  | .week | .isoWeek | .monthStartWeek | .sundayStartWeek =>
-    (inRangeDay ((x + 43200000000) / DAY_US)).bind fun n => (inRangeDay (roundDay u n)).map (· * DAY_US)
-  | u => (inRangeDay (roundDay u (x / DAY_US))).map (· * DAY_US)
-where inRangeTs (b : Int) : Chk Int :=
-  if MIN_DAY * DAY_US ≤ b ∧ b ≤ (MAX_DAY + 1) * DAY_US - 1 then .ok b else .error .DateOutOfRange
+  | u => (inRangeDay (decidingDay u x)).bind fun n => (inRangeDay (roundOf u ymd n)).map (· * DAY_US)
+
+def roundTs (u : TUnit) (x : Int) : Chk Int := roundTsOf u (civil (decidingDay u x)) x
+
+/-! ### Unit boundaries as independent predicates (what "starts a unit" means), for the theorems -/
+
+/-- Day number `b` starts a unit `u`. -/
+def IsBoundary (u : TUnit) (b : Int) : Prop :=
+  ∃ y m d, IsDate y m d ∧ dayNumber y m d = b ∧
+    match u with
+    | .century => m = 1 ∧ d = 1 ∧ y % 100 = 1
+    | .year => m = 1 ∧ d = 1
+    | .quarter => d = 1 ∧ (m = 1 ∨ m = 4 ∨ m = 7 ∨ m = 10)
+    | .month => d = 1
+    | .isoYear => (b + 3) % 7 = 0 ∧ ∃ Y, b ≤ dayNumber Y 1 4 ∧ dayNumber Y 1 4 ≤ b + 6
+    | .week => (b - dayNumber y 1 1) % 7 = 0
+    | .isoWeek => (b + 3) % 7 = 0
+    | .monthStartWeek => d = 1 ∨ d = 8 ∨ d = 15 ∨ d = 22 ∨ d = 29
+    | .sundayStartWeek => (b + 4) % 7 = 0
+    | .day | .hour | .minute => True
+
+/-- `b` is the greatest instant satisfying `P` that is not later than `x`. -/
+def GreatestLE (P : Int → Prop) (x b : Int) : Prop := P b ∧ b ≤ x ∧ ∀ b', P b' → b' ≤ x → b' ≤ b
+
+/-- `b` is the least instant satisfying `P` that is later than `x`. -/
+def LeastGT (P : Int → Prop) (x b : Int) : Prop := P b ∧ x < b ∧ ∀ b', P b' → x < b' → b ≤ b'
 
 end SqlDt.Spec
